@@ -135,6 +135,41 @@ Theorem C09_recovery_count : forall st str0 ops limit rt w i it, valid_cfg (cfg 
 Proof. exact recovery_count. Qed.
 Print Assumptions C09_recovery_count.
 
+(* MISSING replies: the watchdog of the schema's global counter. More than 4 s after the last sync (a reply
+   delivered for the schema, or the creation of the counter), a tick of the watchdog makes an available
+   global-count limiter fall back exactly as an error reply does: max(observed, local) within the global limit *)
+Theorem C09_silence_falls_back : forall st str0 ops mx rate w i, valid_cfg (cfg st) -> evs_ok ops ->
+  let s := reach st str0 ops in let c := scfg s in
+  rem s = Some w -> rin w = Some i -> has_counter i = true -> iun i = false ->
+  4 < now_sec s - isync i ->
+  rcfg w = Some {| idet := global_detail c; istr := SCount |} ->
+  exists i', rem (step true true true st s (EWatchdog mx rate)) = Some {| rin := Some i'; rcfg := rcfg w |} /\
+             iun i' = true /\
+             match ck c with
+             | KMI => exists n, il i' = LMI n /\ l1 c <= n <= g1 c
+             | KTB => exists q b, il i' = LTB q b /\ l1 c <= q <= g1 c /\ 0 <= b <= g2 c
+             end.
+Proof. exact silence_falls_back. Qed.
+Print Assumptions C09_silence_falls_back.
+
+(* ... and over histories: after ANY history [ops] that leaves an available global-count limiter, ANY stretch
+   [quiet] of events without a reply for the schema (time passing, heartbeats, leader changes, worker rounds whose
+   reply omits the schema) that lasts 5 s or more, followed by a watchdog tick, puts the fallback in force:
+   the instance does not go on with the stale server quota *)
+Theorem C09_silence_history : forall st str0 ops quiet mx rate w i, valid_cfg (cfg st) -> evs_ok ops -> Forall silent quiet ->
+  let s := reach st str0 ops in let c := scfg s in
+  rem s = Some w -> rin w = Some i -> has_counter i = true -> iun i = false ->
+  rcfg w = Some {| idet := global_detail c; istr := SCount |} ->
+  5000 <= elapsed quiet ->
+  let s' := reach st str0 (ops ++ quiet ++ [EWatchdog mx rate]) in
+  exists i', rem s' = Some {| rin := Some i'; rcfg := rcfg w |} /\ iun i' = true /\
+             match ck c with
+             | KMI => exists n, il i' = LMI n /\ l1 c <= n <= g1 c
+             | KTB => exists q b, il i' = LTB q b /\ l1 c <= q <= g1 c /\ 0 <= b <= g2 c
+             end.
+Proof. exact silence_history. Qed.
+Print Assumptions C09_silence_history.
+
 (* every clause of the executable specification (bound, fallback, inforce, failing, recovery, nopanic)
    holds at every step of every history *)
 Theorem C09_history : forall st str0 ops, valid_cfg (cfg st) -> evs_ok ops ->
@@ -229,4 +264,28 @@ Example C09_type_change_nonvacuous :
 Proof.
   split; [vm_compute; reflexivity|]. split; [vm_compute; reflexivity|].
   repeat constructor; unfold valid_cfg, two31; simpl; lia.
+Qed.
+
+(* the counter manager: a granted quota (12), then the limiter server stops answering for the schema — a resync
+   round after 3 s gets a reply that omits it — and the watchdog, silent at 4 s, fires at 5 s: fallback
+   max(observed 1, local 5) = 5; replies resume: quota 9; a failed call: fallback max(7, 5) = 7 *)
+Example C09_silence_nonvacuous :
+  let ops := [EHb true; ECfgSync; EWorker false (SvAccept 12) 0 0; EElapse 2000; EWorker true SvOmit 0 0;
+              EElapse 1000; EWorker true SvOmit 0 0; EElapse 1000; EWatchdog 1 0; EElapse 1000; EWatchdog 1 0;
+              EWorker false (SvAccept 9) 0 0; EWorker false SvCallErr 7 0] in
+  map (fun p => (o_lim (snd p), o_sync (snd p), o_sent (snd p))) (trace true true true ex_mi (init (cfg ex_mi) SCount) ops)
+  = [(Some (LMI 5), -1, false); (Some (LMI 1), 0, false); (Some (LMI 12), 0, true); (Some (LMI 12), 0, false);
+     (Some (LMI 12), 0, false); (Some (LMI 12), 0, false); (Some (LMI 12), 0, true); (Some (LMI 12), 0, false);
+     (Some (LMI 12), 0, false); (Some (LMI 12), 0, false); (Some (LMI 5), 0, false); (Some (LMI 9), 5, true);
+     (Some (LMI 7), 5, true)]
+  /\ case_ok ex_mi SCount (observe true ex_mi (init (cfg ex_mi) SCount)) (trace true true true ex_mi (init (cfg ex_mi) SCount) ops) = all_true
+  /\ Forall silent [EElapse 2000; EWorker true SvOmit 0 0; EHb false; EElapse 3000; ELeader]
+  /\ elapsed [EElapse 2000; EWorker true SvOmit 0 0; EHb false; EElapse 3000; ELeader] = 5000
+  /\ (let s := reach ex_mi SCount [EHb true; ECfgSync; EWorker false (SvAccept 12) 0 0] in
+      exists w i, rem s = Some w /\ rin w = Some i /\ has_counter i = true /\ iun i = false /\
+                  rcfg w = Some {| idet := global_detail (scfg s); istr := SCount |}).
+Proof.
+  split; [vm_compute; reflexivity|]. split; [vm_compute; reflexivity|].
+  split; [repeat constructor|]. split; [reflexivity|].
+  vm_compute. eexists. eexists. repeat split.
 Qed.
